@@ -2077,7 +2077,9 @@ func (f *File) ReadFrom(r io.Reader) (int64, error) {
 			m, err2 := f.writeChunkAt(ch, b[:n], f.offset)
 			f.offset += int64(m)
 
-			if err == nil {
+			// A failed write ends the transfer with its error, also when the
+			// reader has already reported the end of its input (final short chunk).
+			if err2 != nil {
 				err = err2
 			}
 		}
